@@ -166,14 +166,15 @@ pub fn check_is_match(prop: &str, case: &AstCase, ctx: &mut Ctx) -> Verdict {
     Verdict::Pass
 }
 
-/// thorough tier: coverage-guided search over pattern ASTs with the R1 oracle inside the libFuzzer target `lang`;
+/// thorough tier: coverage-guided search over pattern ASTs with the reference model inside the libFuzzer target
+/// (`lang`: R1 for C01/C16; `spans`: R2 for C02/C03);
 /// every artifact is decoded by the same function the target uses and re-judged by `judge` through a worker
-pub fn lang_campaign(name: &'static str, ctx: &mut Ctx, judge: &dyn Fn(&AstCase, &mut Ctx) -> Verdict) -> Vec<(String, Verdict, Option<AstCase>)> {
+pub fn lang_campaign(name: &'static str, target: &'static str, ctx: &mut Ctx, judge: &dyn Fn(&AstCase, &mut Ctx) -> Verdict) -> Vec<(String, Verdict, Option<AstCase>)> {
     if ctx.tier != Tier::Thorough {
         return vec![];
     }
     let seed = std::env::var("VERIF_SEED").ok().and_then(|s| s.parse().ok()).unwrap_or(0u64);
-    let c = crate::fuzzrun::Campaign { name, target: "lang", hooks: true, runs_per_job: 300_000, jobs: 12, timeout_s: 25, seed: seed + 101 + name.bytes().map(|b| b as u64).sum::<u64>() };
+    let c = crate::fuzzrun::Campaign { name, target, hooks: true, runs_per_job: 300_000, jobs: 12, timeout_s: 25, seed: seed + 101 + name.bytes().map(|b| b as u64).sum::<u64>() };
     match crate::fuzzrun::run_raw(&c, &[], 64) {
         Err(e) => {
             eprintln!("harness error: fuzz campaign: {e}");
@@ -243,7 +244,7 @@ impl Prop for C01 {
         vec![("exhaustive-small".into(), scope, Box::new(it)), macro_enumeration(tier)]
     }
     fn extra(&self, ctx: &mut Ctx) -> Vec<(String, Verdict, Option<AstCase>)> {
-        lang_campaign("C01", ctx, &|case, ctx| check_is_match("C01", case, ctx))
+        lang_campaign("C01", "lang", ctx, &|case, ctx| check_is_match("C01", case, ctx))
     }
     fn check(&self, case: &AstCase, ctx: &mut Ctx) -> Verdict {
         check_is_match("C01", case, ctx)
